@@ -3,7 +3,7 @@
 S=$1; P=${2:-${S%%-*}}
 W=/tmp/bw
 if [ ! -d $W/repo ]; then mkdir -p $W/verif; git -C /repo worktree add -q --detach $W/repo HEAD || exit 2; fi
-cp /verif/known_functions.txt /verif/known_findings.json $W/verif/
+cp /verif/known_functions.txt /verif/known_types.txt /verif/known_findings.json $W/verif/
 git -C $W/repo checkout -q -- . ; git -C $W/repo clean -fdq
 git -C $W/repo apply ${BEN_DIR:-/verif/benign}/$S/patch.diff || exit 2
 ${GALINT:-/verif/bin/galint} check $P -tier quick -noselftest -repo $W/repo -verif $W/verif 2>&1 | grep -v "^WARNING" | grep -v "^VIOLATION" | tail -${3:-6} | cut -c1-${COLS:-500}
